@@ -35,11 +35,12 @@ def r1_r3_correct_table(ctx, sym, model):
         dict(category='syntax', label='syntax_error', triggered=True, correct=None, muted=True),
         dict(category='algorithmic', label='tifa', triggered=False, correct=None),
         dict(category='instructor', label='explain', triggered=True, correct=False),
+        dict(category='instructor', label='explain_blank', triggered=True, correct=False, message=''),
         dict(category='specification', label='assert_equal', triggered=True, correct=None, else_message='ok'),
         dict(category='specification', label='assert_ok', triggered=False, correct=None, else_message='ok'),
     ]
     sup = {'specification': {True: [{}]}}
-    for seq in itertools.chain(itertools.product(kinds, repeat=2), itertools.product(kinds[:7], repeat=3)):
+    for seq in itertools.chain(itertools.product(kinds, repeat=2), itertools.product(kinds[:8], repeat=3)):
         for s in ({}, sup):
             n += 1
             got, want = model.resolve(list(seq), s, {}), model.oracle(list(seq), s, {})
